@@ -258,6 +258,27 @@ def r3(ctx):
             ctx.bad(R, k, t["s"], "tokio runtime not deterministic: " + "; ".join(sorted(set(probs))))
         else:
             ctx.ok(R, k, t["s"], "runtime is current-thread, time-enabled, paused" + (", seeded" if b.crate == "turmoil" else ""))
+    # the per-host generator must survive re-initialisation (crash / bounce rebuild the runtime through the same init)
+    RNGF = "turmoil::rt::Config::rng"
+    for b in sorted(ctx.w.bodies.values(), key=lambda b: b.id):
+        if b.crate != "turmoil":
+            continue
+        for bb, t in b.calls():
+            if not t["args"] or is_macro_noise(t):
+                continue
+            o = deref_origin(b, t["args"][0])
+            if o["k"] == "place" and place_last_field(o["p"]) == RNGF and isinstance(o["p"]["p"][-1], dict) and o["p"]["p"][-1].get("f") == "rng":
+                m = t["f"].rsplit("::", 1)[1]
+                okm = t["f"] in ("std::option::Option::as_mut", "std::option::Option::as_ref", "std::option::Option::is_some", "std::option::Option::is_none",
+                                  "<std::option::Option as std::clone::Clone>::clone", "<std::option::Option as std::fmt::Debug>::fmt")
+                ctx.inst(R, f"{b.id}:config-rng:{m}", okm, t["s"], "generator borrowed in place" if okm else
+                         f"`{t['f']}` moves / replaces the per-host generator rt::Config::rng: a runtime rebuilt after crash or bounce finds no generator and tokio seeds itself from OS entropy")
+        for bb, i, s in b.all_stmts():
+            if place_last_field(s["p"]) == RNGF and isinstance(s["p"]["p"][-1], dict) and s["p"]["p"][-1].get("f") == "rng":
+                ctx.bad(R, f"{b.id}:config-rng:assign", s["s"], "rt::Config::rng is overwritten after construction")
+            r = s["r"]
+            if r["k"] == "use" and "m" in r["o"] and place_last_field(op_place(r["o"])) == RNGF and op_place(r["o"])["p"][-1].get("f") == "rng":
+                ctx.bad(R, f"{b.id}:config-rng:move-out", s["s"], "rt::Config::rng is moved out of the stored config: the next init is unseeded")
     # other ways to get a runtime
     for b, bb, t in who_calls(ctx.w, re.compile(r"^tokio::runtime::Runtime::new$|^tokio::runtime::Handle::(block_on|spawn_blocking)$")):
         if is_macro_noise(t):
